@@ -103,6 +103,22 @@ theorem beq_refl (eqα : α → α → Bool) (hr : ∀ x, eqα x x = true) (a : 
   congr 1
   exact (logicalEq_iff_aux eqα a a).mpr (PEq_refl_aux eqα hr a ha)
 
+/-- ... and not otherwise: if the matrix holds an element that is not equal to itself (a NaN),
+`a == a` is `false` — a pointer-identity shortcut would be wrong -/
+theorem beq_self_false_of_irreflexive (eqα : α → α → Bool) (a : Matrix α) (ha : a.Coh)
+    (hfa : a.data.size ≤ usizeMax) (i j : Nat) (hi : i < a.nrows) (hj : j < a.ncols) (x : α)
+    (hx : a.at? i j = some x) (hirr : eqα x x = false) : a.beq eqα a = .ok false := by
+  rw [beq_spec eqα a a ha ha hfa hfa]
+  congr 1
+  apply Bool.eq_false_iff.mpr
+  intro h
+  obtain ⟨_, _, hall⟩ := (logicalEq_iff_aux eqα a a).mp h
+  obtain ⟨y, z, hy, hz, hyz⟩ := hall i hi j hj
+  rw [hx] at hy hz
+  cases hy; cases hz
+  rw [hirr] at hyz
+  exact Bool.noConfusion hyz
+
 theorem beq_symm (eqα : α → α → Bool) (hs : ∀ x y, eqα x y = eqα y x) (a b : Matrix α)
     (ha : a.Coh) (hb : b.Coh) (hfa : a.data.size ≤ usizeMax) (hfb : b.data.size ≤ usizeMax) :
     a.beq eqα b = b.beq eqα a := by
